@@ -77,6 +77,13 @@ ExperimentOps(T) ==
                items |-> << [kind |-> "rp", pname |-> "Capacities", val |-> [core |-> "i:3"]], [kind |-> "rp", pname |-> "Labels", val |-> [local_name |-> "s:x"]] >>] :
                  p \in Nodes(T) \cup TopSvcs(T) \cup NodeSideIfs(T) \cup UNION {KidsOf(T, n, CO) : n \in Nodes(T)}, b \in {"none", "unknown", "type"}}
           ELSE {})
+    \* creating calls with an invalid property among otherwise good arguments
+    \cup {[op |-> "AddNode", name |-> "n9", site |-> "S1", ntype |-> "VM", rp |-> <<>>, bad |-> b] : b \in {"unknown", "type"}}
+    \cup {[op |-> "AddFacility", name |-> "f9", site |-> "S1", rp |-> <<>>, bad |-> b] : b \in {"unknown", "type"}}
+    \cup {[op |-> "AddSwitch", name |-> "sw9", site |-> "S1", nports |-> 2, bad |-> "type"]}
+    \cup {[op |-> "AddComponent", n |-> n, name |-> "c9", model |-> "nic1", bad |-> b] : n \in Nodes(T), b \in {"unknown", "type"}}
+    \cup {[op |-> "AddService", name |-> "s9", nstype |-> "L2Bridge", ifs |-> ifs, site |-> "", rp |-> <<>>, bad |-> b] :
+              ifs \in {<<>>} \cup {<<i>> : i \in NodeSideIfs(T)}, b \in {"unknown", "type"}}
     \cup {[op |-> "Views"], [op |-> "Validate"]}
     \cup {[op |-> "HandleIfs", p |-> p] : p \in TopSvcs(T) \cup DedPorts(T)}
     \cup {[op |-> "Navigate", p |-> p] : p \in El(T)}
